@@ -24,6 +24,10 @@ type Exit struct {
 }
 
 type PanicSite struct {
+	// the assertion / declaration prefix visible when the guard was reached: the obligation must not
+	// see the guard's own continuation assumption (reach => ok), nor anything assumed after it
+	nAsserts int
+	nDecls   int
 	cond  string
 	what  string
 	pos   token.Pos
@@ -624,6 +628,14 @@ func (f *frame) enterLoop(li *loopInfo, reach string, st State) State {
 			break
 		}
 		c.assumeRanges(f.vals[phi], phi.Type(), reach, na)
+		// the hidden index of a `for ... range slice` loop starts at -1 and is only ever incremented
+		// by the loop itself (it is not assignable from source): an implicit invariant of every range loop
+		if phi.Comment == "rangeindex" && len(f.vals[phi]) == 1 {
+			c.assume(reach, ge(f.vals[phi][0], num(-1)))
+			// ... and it stays below the length taken before the loop (the loop increments it only
+			// after comparing index+1 with that length); lengths are at most 2^62
+			c.assume(reach, le(f.vals[phi][0], "4611686018427387904"))
+		}
 	}
 	// 3. assume invariants
 	env2 := f.specEnvAt(b, nst)
@@ -684,7 +696,7 @@ func (f *frame) backEdge(from, hdr *ssa.BasicBlock, cond string, st State) {
 // instruction step
 
 func (f *frame) panicSite(cond, what string, in ssa.Instruction) {
-	f.panics = append(f.panics, &PanicSite{cond: cond, what: what, pos: in.Pos(), instr: in})
+	f.panics = append(f.panics, &PanicSite{nAsserts: len(f.c.asserts), nDecls: len(f.c.decls), cond: cond, what: what, pos: in.Pos(), instr: in})
 }
 
 // guard registers a potential runtime panic: ok must hold for execution to continue.
